@@ -196,16 +196,17 @@ def gen_life(prop, tier, seed):
 ENGINE_KIND["life"] = ("C++ harness (ASan+UBSan): shadow-model interpreters over operation histories (bounded-exhaustive + random) with a lifetime registry of tracked element "
                        "types, counting handle policy, instrumented reader/writer for out-of-band handle transfer")
 _life = dict(engine="life", flavour="asan", gen=gen_life, sources=["engines/life/main.cpp"])
+_life_gxx = dict(second_build={"flavour": "gasan", "only_type": "special"})   # the special scenarios are repeated with the engine built by g++ (ASan+UBSan)
 
 CHECKS["C12"] = dict(
-    _life, level="exploration",
+    _life, **_life_gxx, level="exploration",
     rule=("history = sequence of operations over 2 interacting Variant<TrackedA, TrackedB(convertible from CSrc), int, string> objects: value/lvalue/converting/cross-type assignment and construction, "
           "copy/move assign (incl. self), assign EmptyVariant, Become(-2..5), copy/move construct, destroy+construct, mutate via get, IfAnyOf Get/Take/Swap/Call, each constructing operation also with an element "
           "constructor that throws on its n-th construction. After every operation a shadow model {index, value} is compared through index/empty/Visit/get<T>/get<I>/is<T> and a lifetime registry is audited "
           "(live elements = non-empty tracked alternatives, no double destruction, no use of a dead object, nothing alive at the end). Exhaustive: every history of length <= 3 (quick) / 4 (thorough) over the "
           "98-operation alphabet; then random histories of length <= 40. Special scenarios: every constructor form (default, EmptyVariant, copy/move from empty and non-empty, converting copy/move from an empty and non-empty "
           "Variant<Other...>, single-alternative Variants incl. swap and vector growth) placement-constructed into storage pre-filled with five byte patterns, so an uninitialised member shows as a wrong index()/Visit; a 130-alternative Variant at alternatives 0, 1, 63, 64, 126..129 (Become, copy, move, assign, get, Visit); an alternative that is a union type with a destructor. distinct = enumerated histories + hashed random ones; non-trivial = 2+ operations."),
-    floor={"quick": 100000, "thorough": 1000000}, require_counters=["c12_operations_executed", "c12_injected_constructor_exceptions", "c12_random_histories", "c12_special_scenarios"],
+    floor={"quick": 100000, "thorough": 1000000}, require_counters=["c12_operations_executed", "c12_injected_constructor_exceptions", "c12_random_histories", "c12_special_scenarios", "second_compiler_c12_special_scenarios"],
     technique="shadow-model interpreter + lifetime registry over bounded-exhaustive and random operation histories, under ASan/UBSan",
     level_text="exploration with an exhaustive core: all operation histories up to length 3/4 over a 98-operation alphabet are enumerated and each step is decided exactly against a shadow model and a lifetime registry; longer histories are sampled.",
     level_note="element lifetime is observed through tracked element types (registry of live addresses + magic word); ASan watches the same executions",
@@ -213,7 +214,7 @@ CHECKS["C12"] = dict(
     exhaustive_counter="c12_exhaustive_len2_histories_total")
 
 CHECKS["C13"] = dict(
-    _life, level="exploration",
+    _life, **_life_gxx, level="exploration",
     rule=("history = sequence of operations over 2 Optional<Tracked>, an Entry<Tracked,5>, 2 Result<E,Tracked>, a Status<Tracked> and Optional<int> sources: value/lvalue assignment, clear, take, copy/move assign "
           "(incl. self and cross-type Optional<int>), copy/move construct, destroy+construct (value / InPlace / error), entry<->optional transfers, error assignment, Status moves. After every operation the state "
           "model is compared through empty/bool/has_value/has_error/error()/get and the lifetime registry is audited; moving from an object by assignment must leave it empty. Exhaustive to length 3/4 over the "
@@ -221,7 +222,7 @@ CHECKS["C13"] = dict(
           "Messages: all 19 ErrorStatus enumerators through Status<void> and Status<int>. "
           "Special scenarios: every constructor form of Optional/Entry/Result/Status in pattern-filled storage; a throwing element constructor at the 1st..3rd construction inside each of 14 assigning operations on empty and engaged destinations: "
           "afterwards each object is empty or holds one alive value and the registry balances; decoding (Deserializer) into Optional<Optional<T>>, Optional<T>, Result<E,T> and table entries with tracked serializable elements from four prior states incl. NIL/error over a value and a truncated encoding."),
-    floor={"quick": 100000, "thorough": 1000000}, require_counters=["c13_operations_executed", "c13_comparisons", "c13_error_messages", "c13_random_histories", "c13_special_scenarios", "c13_injected_constructor_exceptions"],
+    floor={"quick": 100000, "thorough": 1000000}, require_counters=["c13_operations_executed", "c13_comparisons", "c13_error_messages", "c13_random_histories", "c13_special_scenarios", "c13_injected_constructor_exceptions", "second_compiler_c13_special_scenarios"],
     technique="shadow-model interpreter + lifetime registry over bounded-exhaustive and random histories; exhaustive operand-state table for the 18 comparison operators",
     level_text="exploration with an exhaustive core: all histories up to length 3/4 over a 77-operation alphabet, all operand-state pairs of every comparison operator, all ErrorStatus values; longer histories sampled.",
     level_note="state after move *construction* is read back, not asserted (the property constrains move assignment only)",
